@@ -80,6 +80,21 @@ def popAt (a : Abs α) (i : Int) : Abs α × Out α :=
   | some v, some t => ({ a with toks := t }, .val v)
   | _, _ => (a, .err .index)
 
+/-- attaching a results name to an existing result (`ParseResults(existing, name, asList, modal)`, what the parser
+    does for `expr("name")` / `expr("name*")`): the name gets one more value — the whole token list as a nested result
+    (`asList`) or the first token — and becomes list-all when `modal` is false; every other name keeps its values
+    and its list-all flag. -/
+def reinit (mk : List α → α) (a : Abs α) (name : Option String) (asList modal : Bool) : Abs α :=
+  match name with
+  | none => a
+  | some nm =>
+    if nm = "" then a else
+    let a1 : Abs α := { a with la := fun k => a.la k || (!modal && decide (k = nm)) }
+    if asList then a1.add nm (mk a.toks)
+    else match a.toks with
+      | v :: _ => a1.add nm v
+      | [] => a1
+
 end Abs
 
 /-- the specification of one operation -/
